@@ -569,7 +569,7 @@ template <class T> struct Maker<PhQ::ConstitutiveModel::CompressibleNewtonianFlu
         self.only = saved
         return '#include "c20_prelude.hpp"\nnamespace {\n' + body + "}  // namespace\n"
 
-    def translation_units(self, ntus=16, subset=None, inline_twins=False):
+    def translation_units(self, ntus=16, subset=None, inline_twins=False, at_exit_object=False):
         """returns {filename: text}.  Every TU that includes the library pays a large fixed cost under the
         sanitizers (the dynamic initialisers of all enumeration tables are emitted in each), so the harness
         is packed into exactly `ntus` TUs of equal estimated weight.
@@ -620,6 +620,9 @@ template <class T> struct Maker<PhQ::ConstitutiveModel::CompressibleNewtonianFlu
                 body = "".join(ts)
                 if not tus:
                     tail_ = tail + size_def
+                    if at_exit_object:
+                        tail_ += ("namespace {\n// a user's namespace-scope object, defined after the library's includes, that uses the library in its destructor\n"
+                                  "struct AtExitUser { ~AtExitUser() { vrt::run_exit_queue(); } };\nstatic const AtExitUser at_exit_user{};\n}\n")
                 else:
                     tail_ = tail
                 twins = ""
